@@ -3,11 +3,11 @@
    andybalholm/brotli) are the Section variables enc/dec with the hypothesis dec k (enc k lvl x) = x, which the
    harness tests on the real libraries in every run (codec cases, levels -5..15, sizes 0 B - 64 KiB / MiB).
 
-   Full statement for streamed bodies and generic writers:  forall queue schedules, a response/output that is
-   reported as successful decodes to the handler's body.  FALSE of the code as it is (finding
-   stackless-writer-close-dropped, reproduced deterministically): C22_stream_roundtrip_refuted.
-   Full statement for Vary: every compressed response lists Accept-Encoding in Vary.  FALSE (finding
-   vary-substring): C22_vary_set_refuted.  Both are proved under the guard that excludes the finding. *)
+   History: two defects found here were repaired in /repo (0c40a4c: a stackless writer operation refused by a full
+   queue was dropped silently, truncating streamed bodies and Write*Level output; f11ef83: addVaryBytes matched
+   "Accept-Encoding" as a substring of another Vary member).  The model is of the repaired code and the theorems
+   below are the full statements; the former witnesses are in the harness corpus (they fail prop_ok if the
+   defects come back). *)
 From FH Require Import Model.Base Gen.GenC22 Spec.CompressSpec Model.Compress Proof.CompressProof.
 Open Scope N_scope.
 
@@ -23,46 +23,34 @@ Section Codec.
     firstn (length dst) out = dst /\ dec k (skipn (length dst) out) = src.
   Proof. exact (append_roundtrip enc dec dec_enc). Qed.
 
-  (* buffered response bodies: for every handler kind, levels, Accept-Encoding, response and EVERY queue occupancy
-     and schedule, the body the wrapper leaves decodes (per the coding it declares) to the handler's body *)
+  (* every response body, buffered or streamed (any number of reads of the body stream): for every handler kind,
+     levels, Accept-Encoding, response, EVERY queue occupancy of the stackless function and EVERY schedule of
+     refusals met by the stackless writer operations, the body the wrapper leaves decodes (per the coding it
+     declares) to exactly the handler's body *)
   Theorem C22_roundtrip_any_load : forall kd bl ol ae inflight cap sched r,
-    r_streamed r = false ->
     exists w, c_body (snd (compress_handler enc kd bl ol ae inflight cap sched r)) = SOk w /\ decode dec w = Some (r_body r).
-  Proof. exact (buffered_roundtrip enc dec dec_enc). Qed.
+  Proof. exact (roundtrip_any_load enc dec dec_enc). Qed.
 
-  (* streamed bodies (and all bodies): a reported failure, or a body that decodes to the handler's body — provided
-     the coder's Close operation is not refused by a full queue *)
-  Theorem C22_stream_roundtrip_guarded : forall kd bl ol ae inflight cap sched r,
-    nth_full sched (2 * length (r_chunks r)) = false ->
-    let c := snd (compress_handler enc kd bl ol ae inflight cap sched r) in
-    c_body c = SErr \/ exists w, c_body c = SOk w /\ decode dec w = Some (r_body r).
-  Proof. exact (stream_roundtrip_guarded enc dec dec_enc). Qed.
+  (* Write<Coding>Level to any other io.Writer (stackless.Writer path): same, whatever the queue refuses *)
+  Theorem C22_write_roundtrip : forall k lvl p full_write full_close,
+    exists w, write_generic enc k lvl p full_write full_close = SOk w /\ decode dec w = Some p.
+  Proof. exact (write_generic_roundtrip enc dec dec_enc). Qed.
 
   (* never compressed twice: a response that declares a Content-Encoding is left alone, and what the wrapper
-     produces is the handler's body coded at most once, with the coding it chose *)
+     produces is the handler's body coded at most once, completely, with the coding it chose *)
   Theorem C22_never_twice : forall kd bl ol ae inflight cap sched r,
     (r_ce r <> [] -> snd (compress_handler enc kd bl ol ae inflight cap sched r) = unchanged r) /\
     (let c := snd (compress_handler enc kd bl ol ae inflight cap sched r) in
      c = unchanged r \/
      exists k lvl, choose kd ae = Some k /\ r_ce r = [] /\ c_ce c = tok k /\
-       (c_body c = SErr \/ exists complete, c_body c = SOk (WCoded k (enc k lvl (r_body r)) complete))).
+       c_body c = SOk (WCoded k (enc k lvl (r_body r)) true)).
   Proof. intros. split; [apply never_twice|apply coded_once]. Qed.
 End Codec.
 
 Print Assumptions C22_append_roundtrip.
 Print Assumptions C22_roundtrip_any_load.
-Print Assumptions C22_stream_roundtrip_guarded.
+Print Assumptions C22_write_roundtrip.
 Print Assumptions C22_never_twice.
-
-(* the witness of finding stackless-writer-close-dropped, for any codec: a stream whose Close is refused is
-   delivered as a success and does not decode *)
-Theorem C22_stream_roundtrip_refuted :
-  forall (enc : coding -> Z -> bytes -> bytes) (dec : coding -> bytes -> bytes),
-  exists sched r,
-    r_streamed r = true /\
-    exists w, c_body (snd (compress_handler enc HLevel 6 6 [s2b "gzip"] 0 2048 sched r)) = SOk w /\ decode dec w = None.
-Proof. exact stream_roundtrip_refuted. Qed.
-Print Assumptions C22_stream_roundtrip_refuted.
 
 (* the coding a Compress handler picks occurs, as a bare list element (weight 1), in the request's Accept-Encoding:
    for ALL Accept-Encoding lines whose first line is syntactically valid (RFC 9110 12.5.3 elements
@@ -77,20 +65,14 @@ Theorem C22_weighted_token_not_taken : forall k w, has_accept_encoding (tok k ++
 Proof. intros k w. apply weighted_token_not_taken. apply tok_ok_tok. Qed.
 Print Assumptions C22_weighted_token_not_taken.
 
-(* Vary: when the wrapper codes the body, the response lists Accept-Encoding in Vary — provided the first Vary
-   line the handler set is empty, does not contain the text "Accept-Encoding", or lists it as a member *)
-Theorem C22_vary_set_guarded : forall enc kd bl ol ae inflight cap sched r,
-  vary_guard (r_vary r) ->
+(* Vary: whenever the wrapper codes the body, the response lists Accept-Encoding as a member of Vary, whatever Vary
+   lines the handler had set (header values are bytes without CR: fasthttp replaces CR/LF when a value is stored) *)
+Theorem C22_vary_set : forall enc kd bl ol ae inflight cap sched r,
+  clean (peek (r_vary r)) = true ->
   let c := snd (compress_handler enc kd bl ol ae inflight cap sched r) in
   c = unchanged r \/ vary_has (c_vary c) sAcceptEncoding = true.
-Proof. exact vary_set_guarded. Qed.
-Print Assumptions C22_vary_set_guarded.
-
-Theorem C22_vary_set_refuted : forall enc,
-  exists r, let c := snd (compress_handler enc HLevel 6 6 [s2b "gzip"] 0 2048 [] r) in
-    c_ce c = s2b "gzip" /\ vary_has (c_vary c) sAcceptEncoding = false.
-Proof. exact vary_set_refuted. Qed.
-Print Assumptions C22_vary_set_refuted.
+Proof. exact vary_set. Qed.
+Print Assumptions C22_vary_set.
 
 (* every level, in range or not, selects an existing writer pool (no index panic for levels -5..15 or any other) *)
 Theorem C22_level_index_in_range : forall k l, (0 <= pool_index k l < pool_map_len)%Z.
@@ -114,7 +96,11 @@ Proof. vm_compute. repeat split; reflexivity. Qed.
 Example C22_ex_vary :
   add_vary [] strAcceptEncoding = [s2b "Accept-Encoding"]
   /\ add_vary [s2b "Origin"] strAcceptEncoding = [s2b "Origin,Accept-Encoding"]
-  /\ add_vary [s2b "Origin, Accept-Encoding"] strAcceptEncoding = [s2b "Origin, Accept-Encoding"]
-  /\ add_vary [s2b "X-Accept-Encoding"] strAcceptEncoding = [s2b "X-Accept-Encoding"]
-  /\ vary_guard [s2b "Origin"] /\ vary_guard [s2b "Origin, Accept-Encoding"].
-Proof. repeat split; try reflexivity; cbn; auto. Qed.
+  /\ add_vary [s2b "Origin, accept-encoding "] strAcceptEncoding = [s2b "Origin, accept-encoding "]
+  /\ add_vary [s2b "X-Accept-Encoding"] strAcceptEncoding = [s2b "X-Accept-Encoding,Accept-Encoding"]   (* the former vary-substring witness *)
+  /\ add_vary [s2b "Origin"; s2b "Accept-Encoding"] strAcceptEncoding = [s2b "Origin,Accept-Encoding"; s2b "Accept-Encoding"].
+Proof. vm_compute. repeat split; reflexivity. Qed.
+(* the former stackless-writer-close-dropped witness: a stream whose Close meets a full queue is complete *)
+Example C22_ex_close_refused : forall enc,
+  stream_compress enc Gzip 5%Z [s2b "abc"] [false; false; true] = SOk (WCoded Gzip (enc Gzip 5%Z (s2b "abc")) true).
+Proof. reflexivity. Qed.
